@@ -128,8 +128,14 @@ def afterMinus (tail : Text) : Text :=
 /-- `BigInt::from_str_radix` -/
 def parseBigInt (radix : Nat) (s : Text) : Option Int :=
   match s with
-  | '-' :: tail => (parseBigUint radix (afterMinus tail)).map fun v => -(v : Int)
-  | _ => (parseBigUint radix s).map fun v => (v : Int)
+  | '-' :: tail =>
+    (match parseBigUint radix (afterMinus tail) with
+      | some v => some (-(Int.ofNat v))
+      | none => none)
+  | _ =>
+    (match parseBigUint radix s with
+      | some v => some (Int.ofNat v)
+      | none => none)
 
 /-! ## ratios -/
 
